@@ -80,3 +80,10 @@ package party
 //@   allocates
 //@   ensures fresh(result) && len(result) == len(partyIDs)
 //@   ensures forall(x, ID, inslice(result, x) == inslice(partyIDs, x))
+
+//@ func NewPointMap
+//@   nopanic[C05]
+//@   requires forall(k, ID, indom(points, k) ==> points[k] != nil)
+//@   modifies nothing
+//@   allocates
+//@   ensures result != nil && fresh(result) && result.Points == points
